@@ -101,3 +101,75 @@ func (r *rng) ibound() int64 {
 }
 
 var _ = bits.Len64
+
+// adversarial non-NaN float bit pattern of a format with S significand and E exponent bits
+func (r *rng) fbits(S, E uint) uint64 {
+	sign := uint64(r.intn(2)) << (S + E)
+	expMax := uint64(1)<<E - 1
+	bias := uint64(1)<<(E-1) - 1
+	var exp, sig uint64
+	switch r.intn(10) {
+	case 0:
+		return sign // ±0
+	case 1:
+		return sign | expMax<<S // ±Inf
+	case 2:
+		exp, sig = 0, uint64(1+r.intn(3)) // smallest subnormals
+	case 3:
+		exp, sig = 0, uint64(1)<<S-1-uint64(r.intn(3)) // largest subnormals
+	case 4:
+		exp, sig = expMax-1, uint64(1)<<S-1-uint64(r.intn(3)) // MaxFloat and neighbours
+	case 5:
+		exp, sig = bias+uint64(r.intn(int(S)+4))-1, 0 // powers of two around the integer range
+	case 6:
+		exp = bias + uint64(r.intn(int(S)+4)) - 1
+		sig = r.u64() & (uint64(1)<<S - 1)
+	case 7:
+		exp = uint64(r.intn(int(expMax)))
+		sig = uint64(1) << uint(r.intn(int(S)))
+	default:
+		exp = uint64(r.intn(int(expMax)))
+		sig = r.u64() & (uint64(1)<<S - 1)
+	}
+	return sign | exp<<S | sig
+}
+
+// an ordered pair of float bit patterns (min <= max as numbers), often close to each other
+func (r *rng) frange(S, E uint) (uint64, uint64) {
+	a := r.fbits(S, E)
+	b := r.fbits(S, E)
+	mag := uint64(1)<<(S+E) - 1
+	switch r.intn(6) {
+	case 0:
+		b = a
+	case 1:
+		// a few ulps apart, same sign
+		if a&mag+4 < (uint64(1)<<E-1)<<S {
+			b = a + uint64(1+r.intn(4))
+		}
+	case 2:
+		// same exponent
+		if a&mag < (uint64(1)<<E-1)<<S {
+			b = a&^(uint64(1)<<S-1) | r.u64()&(uint64(1)<<S-1)
+		}
+	}
+	key := func(x uint64) (bool, uint64) { return x>>(S+E)&1 == 1, x & mag }
+	less := func(x, y uint64) bool { // x < y as numbers (-0 == +0)
+		nx, mx := key(x)
+		ny, my := key(y)
+		if mx == 0 && my == 0 {
+			return false
+		}
+		if nx != ny {
+			return nx
+		}
+		if nx {
+			return mx > my
+		}
+		return mx < my
+	}
+	if less(b, a) {
+		a, b = b, a
+	}
+	return a, b
+}
